@@ -35,6 +35,8 @@ import (
 	"connectrpc.com/conformance/internal/gen/proto/go/connectrpc/conformance/v1/conformancev1connect"
 	"connectrpc.com/conformance/internal/verif/rep"
 	"golang.org/x/net/http2"
+	"google.golang.org/protobuf/encoding/protojson"
+	"google.golang.org/protobuf/proto"
 )
 
 // c12ChainCase is the replay value of one request through the real chain.
@@ -45,6 +47,7 @@ type c12ChainCase struct {
 	Procedure string    `json:"procedure"` // Unary, IdempotentUnary, ...
 	Exp       c12Side   `json:"exp"`
 	Act       c12Actual `json:"act"`
+	Timeout   *string   `json:"timeout,omitempty"` // kind "chain-timeout": value of the protocol's timeout header
 }
 
 // c12Conn: how the client reaches which server. Version and TLS are what is
@@ -191,10 +194,11 @@ func c12ChainBody(act c12Actual) ([]byte, error) {
 }
 
 type c12ChainObs struct {
-	Lines       []string `json:"lines"`
-	Status      int      `json:"status"`
-	RespProto   string   `json:"response_proto"`
-	TransportEr string   `json:"transport_error,omitempty"`
+	Lines       []string    `json:"lines"`
+	Status      int         `json:"status"`
+	RespProto   string      `json:"response_proto"`
+	TransportEr string      `json:"transport_error,omitempty"`
+	Timeout     *c12ChainTO `json:"timeout_answer,omitempty"` // kind "chain-timeout" only
 }
 
 // c12ChainDo sends one request; feedback lines are collected later.
@@ -258,6 +262,10 @@ func c12ChainDo(cs *c12ChainServer, conn c12Conn, c *c12ChainCase) (c12ChainObs,
 // more times; a server that persistently gives no response is still judged as such.
 // c.Name is the name of the attempt that is judged.
 func c12ChainDoRetry(cs *c12ChainServer, conn c12Conn, c *c12ChainCase, k int64) (c12ChainObs, int, error) {
+	c12ChainDo := c12ChainDo
+	if c.Kind == "chain-timeout" {
+		c12ChainDo = c12ChainTimeoutDo
+	}
 	obs, err := c12ChainDo(cs, conn, c)
 	retries := 0
 	for err == nil && obs.TransportEr != "" && retries < 3 {
@@ -307,6 +315,9 @@ func c12ChainSplit(output string) (map[string][]string, []string) {
 }
 
 func c12ChainJudge(c *c12ChainCase, obs c12ChainObs) c12Result {
+	if c.Kind == "chain-timeout" {
+		return c12ChainTimeoutJudge(c, obs)
+	}
 	var res c12Result
 	res.observed = obs
 	dis := c12Disagree(c.Exp, c.Act.c12Side)
@@ -469,6 +480,41 @@ func TestVerifC12Chain(t *testing.T) {
 	var all []done
 	var k int64
 	stopped := false
+	// ---- timeout headers through the chain: connection kind x (procedure, protocol shape, codec) x value.
+	// They come first (a few thousand requests), so that a budget stop of the matrix on a busy machine does not cost them.
+	var timeoutCases int64
+	for _, conn := range c12Conns {
+		if stopped {
+			break
+		}
+		for _, a := range c12ChainTimeoutShapes(conn) {
+			for _, v := range c12ChainTimeoutValues(a.Act.Protocol, thorough) {
+				k++
+				timeoutCases++
+				if !r.Mine(k) || stopped {
+					continue
+				}
+				if !deadline.IsZero() && time.Now().After(deadline) {
+					stopped = true
+					r.NotExhaustive("budget reached after " + strconv.FormatInt(k, 10) + " enumerated requests (timeout headers)")
+					continue
+				}
+				c := c12ChainCase{
+					Kind: "chain-timeout", Name: c12ChainPrefix + strconv.FormatInt(k, 10),
+					Conn: conn.Label, Procedure: a.Procedure, Exp: a.Act.c12Side, Act: a.Act, Timeout: v,
+				}
+				obs, retries, err := c12ChainDoRetry(serverFor(conn), conn, &c, k)
+				if err != nil {
+					t.Fatalf("case %+v: %v", c, err)
+				}
+				if retries > 0 {
+					r.Count("chain:requests-repeated-after-transport-error", int64(retries))
+				}
+				all = append(all, done{c, obs})
+			}
+		}
+	}
+	r.Extra["timeout_requests_all_shards"] = timeoutCases
 outer:
 	for ai := range acts {
 		a := acts[ai]
@@ -525,11 +571,14 @@ outer:
 		r.Eval(1)
 		r.NonTrivial("")
 		r.Outcome(res.outcome)
-		r.Count("cases:chain:"+d.c.Procedure, 1)
+		r.Count("cases:"+d.c.Kind+":"+d.c.Procedure, 1)
 		if d.obs.TransportEr != "" {
 			r.Count("chain:no-response", 1)
 		}
-		if !sampled[d.c.Conn+d.c.Procedure] && len(sampled) < 6 && (len(d.obs.Lines) > 0) == (len(sampled)%2 == 0) {
+		if d.c.Kind == "chain-timeout" && !sampled["chain-timeout"] && d.c.Timeout != nil {
+			sampled["chain-timeout"] = true
+			r.Sample(map[string]any{"case": d.c, "observed": d.obs, "outcome": res.outcome})
+		} else if !sampled[d.c.Conn+d.c.Procedure] && len(sampled) < 6 && (len(d.obs.Lines) > 0) == (len(sampled)%2 == 0) {
 			sampled[d.c.Conn+d.c.Procedure] = true
 			r.Sample(map[string]any{"case": d.c, "observed": d.obs, "outcome": res.outcome})
 		}
@@ -537,4 +586,337 @@ outer:
 			r.Violate(v.key, v.detail, d.c)
 		}
 	}
+}
+
+// ---------------------------------------------------------------------------
+// timeout headers through the real chain (case kind "chain-timeout")
+//
+// c12-enum judges extractTimeout behind a recorder; here the timeout alphabet
+// goes through createServer's chain INTO connect-go, whose own timeout parsers
+// (more lenient than the protocol grammars: signs, zero-padded numbers of any
+// length) run right behind the checks middleware. Observed on the wire: the
+// feedback, whether the RPC was carried out, and the request info the RPC
+// implementation echoes (timeout_ms, request_headers).
+// ---------------------------------------------------------------------------
+
+type c12ChainTO struct {
+	RPCError   string   `json:"rpc_error,omitempty"` // "" = the RPC was carried out
+	Decoded    bool     `json:"response_decoded"`
+	EchoMs     *int64   `json:"echo_timeout_ms"`
+	HeaderEcho []string `json:"timeout_header_among_echoed_request_headers,omitempty"`
+}
+
+func c12TimeoutHeaderName(protocol int) string {
+	if protocol == c12Connect {
+		return "Connect-Timeout-Ms"
+	}
+	return "Grpc-Timeout"
+}
+
+// c12ChainTimeoutValues: what is put into the timeout header, per protocol; simplest first.
+func c12ChainTimeoutValues(protocol int, thorough bool) []*string {
+	var vals []string
+	if protocol == c12Connect {
+		vals = []string{
+			// in the grammar (1..10 digits)
+			"0", "1", "30000", "0000000001", "9999999999", "0030000",
+			// outside: signs, too many digits (zero-padded or not), units, empty, garbage, blanks
+			"+30000", "-30000", "+0", "-0", "-1", "00000030000", "12345678901", "99999999999999999999",
+			"", "soon", "30S", "30000ms", "1.5", "0x10", "1e3", "3 0", "+", " 30000", "30000 ", " +30000", "30_000",
+		}
+		if thorough {
+			vals = append(vals, "9", "10", "00000000000", "+9999999999", "--1", "+-1", "30000+", "3+0", "\t30000", "30000\t", "0000000000000000000000000030000", "NaN", "٣٠")
+		}
+	} else {
+		vals = []string{
+			// in the grammar (1..8 digits, one unit)
+			"0n", "1n", "1S", "30S", "00000030S", "99999999H", "1H", "100m", "5u", "2M", "0S",
+			// outside
+			"+30S", "-30S", "+0S", "-1n", "0000000030S", "000000001m", "123456789S", "30", "S", "30s", "30X", "30h",
+			"", "soon", "3 0S", "30 S", "1.5S", "30SS", "+30", "30Sx", " 30S", "30S ", " +30S", "3_0S",
+		}
+		if thorough {
+			vals = append(vals, "9u", "99999999n", "0000000000n", "+99999999H", "--1S", "30S+", "3+0S", "\t30S", "30S\t", "000000000000000000000030S", "Hm", "30µ", "30ms")
+		}
+	}
+	out := []*string{nil}
+	for i := range vals {
+		out = append(out, &vals[i])
+	}
+	return out
+}
+
+// c12ChainTimeoutShapes: (procedure, request shape) pairs whose answer carries the request info
+// without a response definition in the request.
+func c12ChainTimeoutShapes(conn c12Conn) []c12ChainActual {
+	var out []c12ChainActual
+	for _, codec := range []int{1, 2} {
+		add := func(proc, m string, p int, stream bool) {
+			out = append(out, c12ChainActual{conn, proc, c12Actual{
+				c12Side: c12Side{conn.Version, m, p, codec, 1, conn.TLS, false}, Stream: stream,
+			}})
+		}
+		add("Unary", http.MethodPost, c12Connect, false)
+		add("IdempotentUnary", http.MethodGet, c12Connect, false)
+		add("ClientStream", http.MethodPost, c12Connect, true)
+		add("Unary", http.MethodPost, c12GRPCWeb, false)
+		add("ClientStream", http.MethodPost, c12GRPCWeb, false)
+		if conn.Version == 2 { // gRPC needs HTTP/2
+			add("Unary", http.MethodPost, c12GRPC, false)
+			add("ClientStream", http.MethodPost, c12GRPC, false)
+		}
+	}
+	return out
+}
+
+// c12ChainTimeoutDo sends the one request and reads the answer.
+func c12ChainTimeoutDo(cs *c12ChainServer, conn c12Conn, c *c12ChainCase) (c12ChainObs, error) {
+	var obs c12ChainObs
+	name := c.Name
+	syn := c12BuildRequest(c.Act, c12ReqOpts{name: &name, exp: &c.Exp, timeout: c.Timeout})
+	scheme := "http"
+	if cs.tls {
+		scheme = "https"
+	}
+	path := ""
+	for _, p := range c12Procedures {
+		if p.Name == c.Procedure {
+			path = p.Path
+		}
+	}
+	if path == "" {
+		return obs, fmt.Errorf("unknown procedure %q", c.Procedure)
+	}
+	target := scheme + "://" + cs.addr + path
+	var body io.Reader
+	if c.Act.Method == http.MethodGet {
+		msg := "" // the empty message, base64url
+		if c.Act.Codec == 2 {
+			msg = "e30" // {}
+		}
+		target += "?connect=v1&encoding=" + c12CodecNames[c.Act.Codec] + "&base64=1&message=" + msg
+	} else {
+		payload, err := c12ChainBody(c.Act)
+		if err != nil {
+			return obs, err
+		}
+		body = bytes.NewReader(payload)
+	}
+	req, err := http.NewRequest(c.Act.Method, target, body) //nolint:noctx
+	if err != nil {
+		return obs, err
+	}
+	req.Header = syn.Header.Clone()
+	client := cs.h1
+	if conn.Version == 2 {
+		client = cs.h2
+	}
+	resp, err := client.Do(req)
+	if err != nil {
+		obs.TransportEr = err.Error()
+		return obs, nil
+	}
+	data, rerr := io.ReadAll(resp.Body)
+	_ = resp.Body.Close()
+	obs.Status = resp.StatusCode
+	obs.RespProto = resp.Proto
+	if rerr != nil {
+		obs.TransportEr = "reading the response body: " + rerr.Error()
+		return obs, nil
+	}
+	to := c12ChainParseAnswer(c, resp, data)
+	obs.Timeout = &to
+	return obs, nil
+}
+
+// c12ChainParseAnswer: RPC outcome and echoed request info from a response in the protocol of c.
+func c12ChainParseAnswer(c *c12ChainCase, resp *http.Response, data []byte) (to c12ChainTO) {
+	snippet := func(b []byte) string {
+		if len(b) > 200 {
+			b = b[:200]
+		}
+		return string(b)
+	}
+	var msg []byte
+	haveMsg := false
+	if c.Act.Protocol == c12Connect && !c.Act.Stream {
+		if resp.StatusCode != http.StatusOK {
+			to.RPCError = fmt.Sprintf("HTTP status %d: %s", resp.StatusCode, snippet(data))
+			return to
+		}
+		msg, haveMsg = data, true
+	} else {
+		if resp.StatusCode != http.StatusOK {
+			to.RPCError = fmt.Sprintf("HTTP status %d: %s", resp.StatusCode, snippet(data))
+			return to
+		}
+		grpcStatus, grpcMessage, haveStatus := resp.Header.Get("Grpc-Status"), resp.Header.Get("Grpc-Message"), resp.Header.Get("Grpc-Status") != ""
+		rest := data
+		for len(rest) >= 5 {
+			flag := rest[0]
+			n := int(rest[1])<<24 | int(rest[2])<<16 | int(rest[3])<<8 | int(rest[4])
+			if n < 0 || len(rest) < 5+n {
+				to.RPCError = "truncated envelope in the response: " + snippet(data)
+				return to
+			}
+			frame := rest[5 : 5+n]
+			rest = rest[5+n:]
+			switch {
+			case c.Act.Protocol == c12Connect && flag&2 != 0: // end of stream
+				var end struct {
+					Error json.RawMessage `json:"error"`
+				}
+				if err := json.Unmarshal(frame, &end); err != nil {
+					to.RPCError = "unreadable end-of-stream frame: " + snippet(frame)
+					return to
+				}
+				if len(end.Error) > 0 && string(end.Error) != "null" {
+					to.RPCError = "end-of-stream error: " + snippet(end.Error)
+				}
+				haveStatus, grpcStatus = true, "0"
+			case c.Act.Protocol == c12GRPCWeb && flag&0x80 != 0: // trailers frame
+				for _, line := range strings.Split(string(frame), "\r\n") {
+					k, v, _ := strings.Cut(line, ":")
+					switch strings.ToLower(strings.TrimSpace(k)) {
+					case "grpc-status":
+						grpcStatus, haveStatus = strings.TrimSpace(v), true
+					case "grpc-message":
+						grpcMessage = strings.TrimSpace(v)
+					}
+				}
+			case flag&1 != 0:
+				to.RPCError = "compressed message although no compression was offered"
+				return to
+			default:
+				if !haveMsg {
+					msg, haveMsg = frame, true
+				}
+			}
+		}
+		if c.Act.Protocol == c12GRPC && !haveStatus {
+			if s := resp.Trailer.Get("Grpc-Status"); s != "" {
+				grpcStatus, grpcMessage, haveStatus = s, resp.Trailer.Get("Grpc-Message"), true
+			}
+		}
+		if to.RPCError == "" && !haveStatus {
+			to.RPCError = "the response carries no RPC status: " + snippet(data)
+		}
+		if to.RPCError == "" && grpcStatus != "0" {
+			to.RPCError = "grpc-status " + grpcStatus + ": " + grpcMessage
+		}
+		if to.RPCError != "" {
+			return to
+		}
+	}
+	if !haveMsg {
+		return to
+	}
+	var out conformancev1.UnaryResponse // the answers of Unary, IdempotentUnary and ClientStream all are { payload = 1 }
+	var err error
+	if c.Act.Codec == 2 {
+		err = protojson.UnmarshalOptions{DiscardUnknown: true}.Unmarshal(msg, &out)
+	} else {
+		err = proto.Unmarshal(msg, &out)
+	}
+	if err != nil || out.GetPayload().GetRequestInfo() == nil {
+		return to
+	}
+	to.Decoded = true
+	info := out.GetPayload().GetRequestInfo()
+	if info.TimeoutMs != nil {
+		v := info.GetTimeoutMs()
+		to.EchoMs = &v
+	}
+	for _, h := range info.GetRequestHeaders() {
+		if strings.EqualFold(h.GetName(), c12TimeoutHeaderName(c.Act.Protocol)) {
+			to.HeaderEcho = append(to.HeaderEcho, h.GetValue()...)
+			if len(h.GetValue()) == 0 {
+				to.HeaderEcho = append(to.HeaderEcho, "<no value>")
+			}
+		}
+	}
+	return to
+}
+
+// c12ChainTimeoutJudge: the property's timeout sentence, seen from the wire: a header in the
+// protocol's grammar draws no feedback and is echoed with the exact (saturated) duration; any other
+// value is reported; in both cases the header is REMOVED: the RPC is carried out (neither refused
+// nor cut short - also for a timeout of 0), the header is not among the echoed request headers, and
+// a value outside the grammar is not echoed as timeout_ms.
+func c12ChainTimeoutJudge(c *c12ChainCase, obs c12ChainObs) c12Result {
+	var res c12Result
+	res.observed = obs
+	pname := c12ProtocolNames[c.Act.Protocol]
+	sfx := ":chain:" + pname
+	if obs.TransportEr != "" || obs.Timeout == nil {
+		res.outcome = "chain-timeout:" + pname + ":no-response"
+		res.fail("matching-request-not-served:chain-timeout", "%s request (every aspect matches, timeout header %q) got no response, also when repeated under fresh names: %s", pname, c12Str(c.Timeout), obs.TransportEr)
+		return res
+	}
+	to := *obs.Timeout
+	c12PrefixOK(&res, obs.Lines, c.Name, "chain-timeout")
+	for _, line := range obs.Lines {
+		if !strings.Contains(strings.ToLower(strings.TrimPrefix(line, c.Name+": ")), "timeout") {
+			res.fail("false-feedback:unrelated-line"+sfx, "every aspect matches, the only possible deviation is the timeout header %q, but got line %q", c12Str(c.Timeout), line)
+		}
+	}
+	common := func(what string) {
+		if to.RPCError != "" {
+			res.fail("timeout-enforced-or-refused"+sfx, "%s: the timeout header is to be removed before the RPC layer sees it, yet the RPC was not carried out: %s", what, to.RPCError)
+		} else if !to.Decoded {
+			res.fail("matching-request-not-served:chain-timeout", "%s: the answer carries no request info (HTTP status %d)", what, obs.Status)
+		}
+		if len(to.HeaderEcho) != 0 {
+			res.fail("timeout-header-not-removed"+sfx, "%s: the header reached the RPC handler (echoed among request_headers: %q)", what, to.HeaderEcho)
+		}
+	}
+	if c.Timeout == nil {
+		res.outcome = "chain-timeout:" + pname + ":absent"
+		if len(obs.Lines) != 0 {
+			res.fail("false-feedback:no-timeout-header"+sfx, "no timeout header, but feedback %q", obs.Lines)
+		}
+		if to.EchoMs != nil {
+			res.fail("timeout-invented"+sfx, "no timeout header, but timeout_ms=%d is echoed", *to.EchoMs)
+		}
+		common("no timeout header")
+		return res
+	}
+	sent := *c.Timeout
+	s := strings.Trim(sent, " \t") // HTTP drops optional whitespace around a field value (client and/or server side)
+	valid, ns := c12Grammar(c.Act.Protocol, s)
+	if valid && s != sent && len(obs.Lines) > 0 {
+		// the padding reached the middleware: then the value is outside the grammar, and was reported
+		valid = false
+	}
+	what := fmt.Sprintf("%s timeout %q over %s (%s)", pname, sent, c.Conn, c.Procedure)
+	if !valid {
+		class := c12InvalidClass(c.Act.Protocol, s)
+		if s != sent {
+			class = "space"
+		}
+		res.outcome = "chain-timeout:" + pname + ":invalid:" + class
+		if len(obs.Lines) == 0 {
+			res.fail("timeout-invalid-not-flagged"+sfx, "%s is not in the grammar (%s), but no feedback names the test", what, class)
+		}
+		if to.EchoMs != nil {
+			res.outcome += ":ECHOED"
+			res.fail("timeout-grammar:accepts-"+class+sfx, "%s is not in the protocol's grammar (%s) but the server echoes timeout_ms=%d (feedback %q)", what, class, *to.EchoMs, obs.Lines)
+		}
+		common(what + ", not in the grammar: " + class)
+		return res
+	}
+	want, saturated := c12Saturate(ns)
+	res.outcome = "chain-timeout:" + pname + ":valid"
+	if saturated {
+		res.outcome += ":saturated"
+	}
+	if len(obs.Lines) != 0 {
+		res.fail("false-feedback:valid-timeout"+sfx, "%s follows the grammar but feedback was printed: %q", what, obs.Lines)
+	}
+	wantMs := int64(want) / 1000000
+	if to.RPCError == "" && to.Decoded && (to.EchoMs == nil || *to.EchoMs != wantMs) {
+		res.fail("timeout-value:wrong-echo"+sfx, "%s: request info should echo timeout_ms=%d, got %s", what, wantMs, c12I64(to.EchoMs))
+	}
+	common(what)
+	return res
 }
